@@ -105,30 +105,30 @@ CronDaysInMonth(c, t, k) ==
   IN IF m \notin c.Mo THEN {}
      ELSE {d \in {first + dd - 1 : dd \in {x \in c.D : x <= len}} :
              d >= t[1] /\ Weekday(d) \in c.W /\ FirstSod(c, IF d = t[1] THEN t[2] ELSE -1) # -1}
+CronFirstIn(c, t, K) == InstOn(c, t, SetMin(CronDaysInMonth(c, t, SetMin(K))))
+Min2(a, b) == IF a < b THEN a ELSE b
 CronMonths(c, t, k0, k1) == {k \in k0..k1 : CronDaysInMonth(c, t, k) # {}}
 \* NextDecl: THE least instant i with Lt(t, i) /\ Matches(c, i) within the horizon (NoInst if none).
 \* (searched window by window only to keep the evaluation cheap; the result is the minimum over all of them)
 NextDecl(c, t, horizon) ==
   IF c.kind = "cron"
-  THEN LET first(K) == InstOn(c, t, SetMin(CronDaysInMonth(c, t, SetMin(K))))
-           k1 == CronMonths(c, t, 0, 1) IN
-       IF k1 # {} THEN first(k1) ELSE
+  THEN LET k1 == CronMonths(c, t, 0, 1) IN
+       IF k1 # {} THEN CronFirstIn(c, t, k1) ELSE
        LET k2 == CronMonths(c, t, 2, 12) IN
-       IF k2 # {} THEN first(k2) ELSE
+       IF k2 # {} THEN CronFirstIn(c, t, k2) ELSE
        LET k3 == CronMonths(c, t, 13, horizon) IN
-       IF k3 # {} THEN first(k3) ELSE NoInst
-  ELSE LET m(a, b) == IF a < b THEN a ELSE b
-           w1 == DaysIn(c, t, 0, m(8, horizon)) IN
+       IF k3 # {} THEN CronFirstIn(c, t, k3) ELSE NoInst
+  ELSE LET w1 == DaysIn(c, t, 0, Min2(8, horizon)) IN
        IF w1 # {} THEN InstOn(c, t, SetMin(w1)) ELSE
-       LET w2 == DaysIn(c, t, 9, m(62, horizon)) IN
+       LET w2 == DaysIn(c, t, 9, Min2(62, horizon)) IN
        IF w2 # {} THEN InstOn(c, t, SetMin(w2)) ELSE
        LET w3 == DaysIn(c, t, 63, horizon) IN
        IF w3 # {} THEN InstOn(c, t, SetMin(w3)) ELSE NoInst
 
 \* how far the search for the next instant looks: weekly schedules repeat every 7 days, a one-shot time of day every
-\* day; calendars are searched for 400 days, cron dates for 47 calendar months ahead (the bundled ccronexpr
-\* gives up when the calendar year advances by more than 4; 29 February is reachable except from the March after one)
-Horizon(c) == CASE c.kind = "weekly" -> 8 [] c.kind = "oneshot" -> 2 [] c.kind = "workday" -> 400 [] c.kind = "cron" -> 47
+\* day; calendars are searched for 400 days, cron dates for 48 calendar months ahead (the bundled ccronexpr
+\* gives up when the calendar year advances by more than 4, i.e. possibly from the 49th month on; 29 February is reachable)
+Horizon(c) == CASE c.kind = "weekly" -> 8 [] c.kind = "oneshot" -> 2 [] c.kind = "workday" -> 400 [] c.kind = "cron" -> 48
 
 \* in UTC, for a zone offset `off`
 NextDeclUtc(c, off, t) == LET r == NextDecl(c, Shift(t, off), Horizon(c)) IN IF r = NoInst THEN NoInst ELSE Shift(r, -off)
